@@ -175,6 +175,52 @@ pub fn decode(d: &mut crate::dec::Dec) -> Case {
     Case { spec, seqs, j1: d.range(0, 39), j2: d.range(0, 39) }
 }
 
+/// exhaustive stage over a tiny parameter grid (same models as C11's exhaustive stage)
+fn exhaustive(tier: Tier, _seed: u64) -> ExtraResult {
+    let mut r = ExtraResult { exhaustive: true, replay_subcheck: "sequences", ..Default::default() };
+    let (tmax, jmax, emax) = tier.pick((8u64, 20u64, 4u64), (12u64, 40u64, 6u64));
+    let mut specs: Vec<ArrSpec> = vec![];
+    for t in 1..=tmax {
+        specs.push(ArrSpec::Periodic { t });
+        for j in 0..=jmax {
+            specs.push(ArrSpec::Sporadic { t, j });
+        }
+    }
+    for a in 0..=emax {
+        for b in a..=emax {
+            if b == 0 {
+                continue;
+            }
+            for e in [false, true] {
+                specs.push(ArrSpec::Curve { dmin: vec![a, b], extrapolating: e });
+            }
+            for c in b..=emax {
+                specs.push(ArrSpec::Curve { dmin: vec![a, b, c], extrapolating: true });
+            }
+        }
+    }
+    let perturbed: Vec<u16> = vec![0, 0, 7, 0, 5, 0, 0, 6, 1, 0, 2, 0];
+    for sp in specs {
+        for (j1, j2) in [(0u64, 0u64), (3, 2)] {
+            let c = Case { spec: sp.clone(), seqs: vec![(0, vec![]), (1, perturbed.clone())], j1, j2 };
+            r.evaluations += 1;
+            match check(&c) {
+                Ok(o) => {
+                    if o.nontrivial {
+                        r.nontrivial += 1;
+                    }
+                }
+                Err(msg) => {
+                    r.failure = Some((serde_json::to_value(&c).unwrap(), msg));
+                    return r;
+                }
+            }
+        }
+    }
+    r.note = format!("every Periodic(T<={t}), Sporadic(T<={t}, J<={j}) and delta-min vector of length 2-3 with entries <= {e}: densest and one perturbed sequence, jitter composition (0,0) and (3,2)", t = tmax, j = jmax, e = emax);
+    r
+}
+
 pub fn def() -> PropertyDef {
     PropertyDef {
         id: "C10",
@@ -184,6 +230,6 @@ pub fn def() -> PropertyDef {
             "Periodic means exactly periodic releases with an arbitrary phase".into(),
         ],
         subchecks: vec![subcheck("sequences", (12_000, 200_000), strategy, check).with_decoder(decode, check)],
-        extra: None,
+        extra: Some(Box::new(exhaustive)),
     }
 }
